@@ -46,6 +46,121 @@ let op_spec_escform f =
 
 let op_spec_crlf f = field_of_text (crlf (text_of_field_nn f.(1)))
 
+(* ---- URI values ------------------------------------------------------------------ *)
+let field_of_bytes = function None -> "-" | Some l -> field_of_text l
+let string_of_uri (u : uri) : string =
+  let segs = u.pathSegs in
+  String.concat " " ([ "U"; field_of_otext u.scheme; field_of_otext u.userInfo; field_of_otext u.hostText;
+    field_of_bytes u.ip4; field_of_bytes u.ip6; field_of_otext u.ipFuture; field_of_otext u.portText;
+    (if u.absolutePath then "1" else "0"); (if u.owner then "1" else "0");
+    string_of_int (List.length segs) ] @ List.map field_of_text segs
+    @ [ field_of_otext u.query; field_of_otext u.fragment; "ok" ])
+
+let prov_of_uri (u : uri) : string =
+  let cls = function None -> "-" | Some [] -> "e" | Some _ -> "i" in
+  String.concat "" (List.map cls [u.scheme; u.userInfo; u.hostText; u.ipFuture; u.portText; u.query; u.fragment])
+  ^ "/" ^ String.concat "" (List.map (fun s -> if s = [] then "e" else "i") u.pathSegs)
+
+exception Arg_parse_error of int
+(* reads one URI argument starting at f.(!pos) *)
+let read_uri (f : string array) (pos : int ref) : uri =
+  let next () = let x = f.(!pos) in incr pos; x in
+  match next () with
+  | "P" ->
+    (match parse (text_of_field_nn (next ())) with
+     | POk u -> u
+     | PSyntax _ -> raise (Arg_parse_error 1))
+  | _ ->
+    let scheme = text_of_field (next ()) in
+    let userInfo = text_of_field (next ()) in
+    let hostText = text_of_field (next ()) in
+    let ip4 = text_of_field (next ()) in
+    let ip6 = text_of_field (next ()) in
+    let ipFuture = text_of_field (next ()) in
+    let portText = text_of_field (next ()) in
+    let abs = bool_of_field (next ()) in
+    let n = int_of_string (next ()) in
+    let segs = List.init n (fun _ -> text_of_field_nn (next ())) in
+    let query = text_of_field (next ()) in
+    let fragment = text_of_field (next ()) in
+    { scheme; userInfo; hostText; ip4; ip6; ipFuture; portText; pathSegs = segs; query; fragment;
+      absolutePath = abs; owner = false }
+
+let op_parse f =
+  let l = text_of_field_nn f.(1) in
+  let entry = int_of_string f.(2) in
+  let r = if entry = 1 || entry = 2 || entry = 4 then parse_cstr l else parse l in
+  let tailer = if entry = 5 then " live=0 badfree=0" else "" in
+  match r with
+  | POk u -> Printf.sprintf "parse 0 -1 %s prov=%s%s" (string_of_uri u) (prov_of_uri u) tailer
+  | PSyntax pos -> Printf.sprintf "parse 1 %d clean=1%s" (int_of_nat pos) tailer
+
+(* ---- conformance suite derived from the model's control automaton -------------------
+   Breadth-first search over the control states reachable from CStart (one representative
+   character per atom), giving each state its shortest access string and a shortest accepting
+   completion.  The suite is  access(s) . c . w  for every reachable state s, every character c
+   of the chosen alphabet and w in {empty, completion of the target}. *)
+let suite (mode : int) : string =
+  let tbl : (ctrl, int list) Hashtbl.t = Hashtbl.create 4096 in
+  let order = ref [] in
+  let q = Queue.create () in
+  Hashtbl.add tbl CStart []; Queue.add CStart q;
+  let atoms = all_atoms in
+  while not (Queue.is_empty q) do
+    let c = Queue.pop q in
+    order := c :: !order;
+    let acc = Hashtbl.find tbl c in
+    List.iter (fun a ->
+      match snd (ptrans c a) with
+      | Go c' -> if not (Hashtbl.mem tbl c') then begin
+                   Hashtbl.add tbl c' (int_of_n (atom_rep a) :: acc); Queue.add c' q end
+      | Stop _ -> ()) atoms
+  done;
+  let states = List.rev !order in
+  (* shortest accepting completion: backward fixpoint *)
+  let comp : (ctrl, int list) Hashtbl.t = Hashtbl.create 4096 in
+  List.iter (fun c -> match snd (pfinish c) with Acc -> Hashtbl.replace comp c [] | StopEnd -> ()) states;
+  let changed = ref true in
+  while !changed do
+    changed := false;
+    List.iter (fun c ->
+      List.iter (fun a ->
+        match snd (ptrans c a) with
+        | Go c' ->
+          (match Hashtbl.find_opt comp c' with
+           | Some w ->
+             let cand = int_of_n (atom_rep a) :: w in
+             (match Hashtbl.find_opt comp c with
+              | Some old when List.length old <= List.length cand -> ()
+              | _ -> Hashtbl.replace comp c cand; changed := true)
+           | None -> ())
+        | Stop _ -> ()) atoms) states
+  done;
+  let chars =
+    if mode = 0 then List.map (fun a -> int_of_n (atom_rep a)) atoms
+    else List.init 128 (fun i -> i) @ [128; 200; 255] in
+  let buf = Buffer.create (1 lsl 20) in
+  let emit l = Buffer.add_string buf (match l with [] -> "_" | _ -> String.concat "." (List.map (Printf.sprintf "%x") l)); Buffer.add_char buf ';' in
+  Buffer.add_string buf (Printf.sprintf "states=%d;" (List.length states));
+  List.iter (fun c ->
+    let acc = List.rev (Hashtbl.find tbl c) in
+    emit acc;
+    (match Hashtbl.find_opt comp c with Some w -> emit (acc @ w) | None -> ());
+    List.iter (fun ch ->
+      let s1 = acc @ [ch] in
+      emit s1;
+      match snd (ptrans c (atom_of (n_of_int ch))) with
+      | Go c' -> (match Hashtbl.find_opt comp c' with Some w when w <> [] -> emit (s1 @ w) | _ -> ())
+      | Stop _ -> ()) chars) states;
+  Buffer.contents buf
+
+(* ---- RFC 3986 oracle: membership and first dead character (memoised derivatives) ------- *)
+let spec_uri f =
+  let l = text_of_field_nn f.(1) in
+  let ok = matchb uRI_reference l in
+  let fd = int_of_nat (first_dead uRI_reference l) in
+  Printf.sprintf "%d %d" (if ok then 1 else 0) fd
+
 let dispatch (f : string array) : string =
   match f.(0) with
   | "esc" -> op_esc f
@@ -54,6 +169,9 @@ let dispatch (f : string array) : string =
   | "spec_unesc" -> op_spec_unesc f
   | "spec_escform" -> op_spec_escform f
   | "spec_crlf" -> op_spec_crlf f
+  | "parse" -> op_parse f
+  | "suite" -> suite (int_of_string f.(1))
+  | "spec_uri" -> spec_uri f
   | op -> "?unknown-op " ^ op
 
 let () = main_loop dispatch
